@@ -256,6 +256,19 @@ func genC07(env *Env, r *Rand, full bool) []Case {
 			for i := 0; i < 6; i++ {
 				shapes = append(shapes, []opndKind{Pick(r, c07Operands), Pick(r, c07Operands), Pick(r, c07Operands)})
 			}
+			// a fixed set of three-operand lists: a plausible two-operand statement with one operand too many (and the IMUL-like forms)
+			byName := func(n string) opndKind {
+				for _, o := range c07Operands {
+					if o.Name == n {
+						return o
+					}
+				}
+				panic("no operand kind " + n)
+			}
+			for _, t := range [][3]string{{"r32", "imm-small", "imm-small"}, {"r16", "imm-small", "r16"}, {"r32", "r32", "imm-small"}, {"r16", "mem", "imm-small"}, {"acc16", "imm-small", "equ"},
+				{"mem", "r16", "imm-small"}, {"r32", "imm-mid", "r32"}, {"acc32", "equ", "label"}} {
+				shapes = append(shapes, []opndKind{byName(t[0]), byName(t[1]), byName(t[2])})
+			}
 			for _, sh := range shapes {
 				var names, texts []string
 				undef := false
